@@ -30,7 +30,10 @@ ORACLE_PREMISES = [
     'equality with equality of the hashed strings, i.e. assumes no collision among the <= 200 keys of a run',
     'pydicom Dataset attribute assignment / getattr / hasattr / deepcopy return the str that was stored (no backslash in '
     'the alphabet); dcmwrite+dcmread return every attribute without its trailing blanks (modelled: rstrip; NUL padding and '
-    'backslash = multi-value are not modelled)',
+    'backslash = multi-value are not modelled); per VR: SH / LO / UC values come back without trailing blanks and NULs, UR without '
+    'trailing Python white space (store_file_vr; control characters travel as printable stand-ins ~ ^ | ` between harness and model)',
+    'copy.copy / Dataset.copy() of a dataset = new object whose element dict IS the dict of the source (shared store, shared nested '
+    'item), class copied; pydicom Dataset iteration yields its data elements (from_code(plain Dataset))',
     'hash(obj) is observed as the candidate string (all scheme+value combinations of the case) whose Python hash equals it: no '
     'collision among these strings; copy.deepcopy / pickle round trip of an object = fresh object of the same class with the same '
     'elements (nested item copied too) and nothing else; a pickle of the whole population into another interpreter preserves '
@@ -45,13 +48,23 @@ MODELLED = ('sr/coding.py CodedConcept.__init__ (attribute selection, meaning gu
             'wins); histories of API calls and user writes over a heap of datasets, incl. user edits of the code value / its '
             'attribute (form), scheme designator and version, deepcopy / pickle copies, and hash / set / dict uses of an object '
             'BEFORE such edits (hash = function of the current record; a pickle of the whole population into another '
-            'interpreter = identity on the heap, the receiving interpreter has another string hash H)')
-NOT_EXECUTED = ['from_code(plain Dataset) (cls(*dataset) iterates data elements; modelled as "unsupported", not generated)',
-                'histories that address a nested sequence item directly (only reached through its parent)',
-                'copy.copy / Dataset.copy() of a concept (shallow: shares elements; not modelled)',
-                'sets of several malformed concepts (CPython probing order would be observable; single-key sets are driven)']
+            'interpreter = identity on the heap, the receiving interpreter has another string hash H); '
+            'from_code of ANY argument (concept, Code, plain Dataset with any subset of elements, None / int, str / tuple / list of '
+            'strings: arity of __init__ and the first data element landing in `value`); nested sequence items addressed directly '
+            '(converted in place / copied / edited / hashed / compared; == of two datasets compares the nested items by Python list '
+            'equality: identity, then ==, item of the right operand of pydicom _dict_equal on the left); the larger machine: '
+            'attribute deletions (malformed concepts used inside a history) and shallow copies copy.copy / Dataset.copy() (new '
+            'identity and class flag on the SAME element store: writes and deletions through either object seen through both, '
+            'nested item shared); the file round trip per VR (SH / LO / UC lose trailing blanks and NULs, UR loses trailing Python '
+            'white space but keeps NUL)')
+NOT_EXECUTED = ['sets of several malformed concepts (CPython probing order would be observable; single-key sets are driven)',
+                'attribute deletions through a store that a NESTED item lives on (== of two parents whose items are malformed '
+                'concepts raises or answers False depending on the insertion order of pydicom\'s element dict: not modelled)',
+                'nesting deeper than one sequence item; pickling a population that contains shallow copies into another '
+                'interpreter; non-ASCII characters and backslash (multi-value) in a file round trip']
 STRATA = ['pair', 'pair_broken', 'triple', 'triple_row', 'store', 'store_file', 'from_ds', 'from_ds_bad', 'from_code',
-          'eq_any', 'set', 'set_broken', 'history', 'history_edit', 'history_xproc']
+          'eq_any', 'set', 'set_broken', 'history', 'history_edit', 'history_xproc', 'from_code_any', 'history_item',
+          'history_ext', 'store_file_vr']
 RULE = ('alphabet 3 schemes (SRT, SCT, DCM) x 6 values (SRT alias source, its SCT image, 16 chars, 17 chars, URN, URL) '
         'x 2 meanings x 2 versions x 2 representations = 144 codes; highdicom objects are produced by a random route '
         '(__init__, from_code, from_dataset with the value in each of the 3 attributes, file round trip). '
@@ -79,6 +92,14 @@ RULE = ('alphabet 3 schemes (SRT, SCT, DCM) x 6 values (SRT alias source, its SC
         'once by a hash / lookup of the new object so that hashed-then-copied-then-edited objects are frequent. '
         'history_xproc: such a history whose first k operations run in ANOTHER interpreter (own PYTHONHASHSEED); the whole '
         'population is pickled over, the remaining operations and all final observations run in the checking process. '
+        'from_code_any: plain datasets with every subset of the six elements +- a nested sequence (quick: the 2..5-element ones '
+        'and half of the rest), None, int, str / tuple / list of 0..6 strings (meanings of 64 / 65 characters). '
+        'history_item (90 per quick run): the history_edit machine where every address may be a nested item (45% of the '
+        'from_dataset calls take an item; items carry a scheme so that they can become concepts) and from_code is given plain '
+        'datasets. history_ext (100): the same plus del of the code-value attributes / CodeMeaning / CodingSchemeDesignator (70% '
+        'followed at once by hash / lookup / == / from_dataset of the malformed object or of one on its store) and copy.copy / '
+        'Dataset.copy(). store_file_vr: 13 bodies x 6 (thorough 14) tails of blank / NUL / TAB / LF / CR in value, scheme, meaning, '
+        'version, both transfer syntaxes. '
         'non-trivial = reference-equal pair of distinct specs / non-default attribute / accepted dataset; distinct by case hash')
 EXHAUSTIVE = {'quick': False, 'thorough': True}
 
@@ -259,6 +280,41 @@ def gen_cases(rng, tier):
         k = len(c['ops'])
         cases.append(dict(c, kind='history_xproc', cut=rng.choice([k, k, max(1, k - 1), max(1, k // 2)]),
                           hseed=rng.randrange(1, 2 ** 31)))
+    # ---- (appended last: the random stream of the kinds above is unchanged) -------------------------------
+    # from_code of everything that is not a Code / concept: plain datasets with every subset of the six elements
+    # (+- a nested sequence), None, int, str / tuple / list of 0..6 strings
+    fvals = {'CodeValue': 'abc', 'LongCodeValue': 'L' * 20, 'URNCodeValue': 'urn:oid:1.2', 'CodeMeaning': 'Meaning',
+             'CodingSchemeDesignator': 'DCM', 'CodingSchemeVersion': '1.1'}
+    for pres in itertools.product([False, True], repeat=6):
+        for seq in (False, True):
+            if tier == 'quick' and not (2 <= sum(pres) + seq <= 5) and rng.random() < 0.5:
+                continue
+            cases.append({'kind': 'from_code_any', 'arg': 'plain', 'seq': seq,
+                          'ds': {kw: (fvals[kw] if p_ else None) for kw, p_ in zip(FC_KW, pres)}})
+    for arg in ('none', 'int'):
+        cases.append({'kind': 'from_code_any', 'arg': arg})
+    for ln in range(7):
+        for arg in ('str', 'tuple', 'list'):
+            for m in (['m'] if arg == 'str' else ['Breast', 'M' * 64, 'M' * 65]):
+                l = [rng.choice(['u', 'r', 'n', ':', '/', 'a']) for _ in range(ln)] if arg == 'str' else \
+                    ([rng.choice(VALUES), rng.choice(SCHEMES), m, '2020', 'x', 'y'][:ln])
+                cases.append({'kind': 'from_code_any', 'arg': arg, 'l': l})
+    for l in (['u', 'r', 'n'], ['u', 'r', 'n', ':'], list('a://'), ['urn', '', ''], ['', '', '', '']):
+        cases.append({'kind': 'from_code_any', 'arg': 'str' if all(len(e) == 1 for e in l) else 'tuple', 'l': l})
+    # file round trip per value representation: trailing NUL / TAB / LF / CR / blank in every attribute
+    tails = ['', ' ', '\0', '\0 ', ' \0', '\0\0', '\t', '\n', '\r', '\t ', ' \t', '\0\t', '\t\0', ' \n \0']
+    for body in ('abc', 'abcd', 'B' * 15, 'B' * 16, 'C' * 17, 'C' * 18, 'urn:a', 'urn:ab', 'http://a b', '\0abc', 'a\0b', '\tabc', ''):
+        for t in (tails if tier != 'quick' else rng.sample(tails, 6)):
+            cases.append({'kind': 'store_file_vr', 'v': body + t, 's': 'DCM' + rng.choice(tails), 'm': 'm' + rng.choice(tails),
+                          'ver': rng.choice([None, '', '1' + rng.choice(tails), rng.choice(tails)]),
+                          'ts': rng.choice(['implicit', 'explicit'])})
+    # nested items passed to the API / edited / hashed / compared themselves; from_code(plain Dataset) inside a history
+    for c in gen_histories(rng, tier, full, edit=True, n=90 if tier == 'quick' else 3000, items=True):
+        cases.append(dict(c, kind='history_item'))
+    # the larger machine: attribute deletions (malformed concepts hashed / looked up / compared / converted inside a
+    # history) and shallow copies (a second object on the same element store)
+    for c in gen_histories(rng, tier, full, edit=True, n=100 if tier == 'quick' else 3000, items=True, ext=True):
+        cases.append(dict(c, kind='history_ext'))
     return cases
 
 
@@ -337,20 +393,38 @@ EDIT_OPS = ['init', 'init', 'new', 'fd', 'fd', 'fd', 'fc', 'setm', 'setn', 'eq',
             'setscheme', 'setscheme', 'setver', 'clone', 'clone', 'clone', 'hash', 'hash', 'hash', 'lookup', 'lookup']
 
 
+EXT_OPS = ['del', 'del', 'del', 'shallow', 'shallow', 'shallow', 'hash', 'lookup', 'eq']
+
+
 def _natural_attr(v):
     return 'URNCodeValue' if (v.startswith('urn') or '://' in v) else 'LongCodeValue' if len(v) > 16 else 'CodeValue'
 
 
-def gen_histories(rng, tier, full, edit=False, n=None):
-    """sequences of API calls and user actions on a growing population of datasets (top-level addresses only);
-    edit=True: also edits of the code itself, copies outside the API and uses as a key (objects with a past)"""
+def gen_histories(rng, tier, full, edit=False, n=None, items=False, ext=False):
+    """sequences of API calls and user actions on a growing population of datasets;
+    edit=True: also edits of the code itself, copies outside the API and uses as a key (objects with a past);
+    items=True: nested sequence items are addressed directly too (passed to the API, edited, hashed, compared), the
+        nested item may carry a scheme (so that it can become a concept), from_code is also given plain datasets;
+    ext=True: also attribute deletions (malformed concepts inside a history) and shallow copies (copy.copy / Dataset.copy():
+        a second object on the SAME element store).
+    sim[i]: dict(top, cc, kid, f) with f = dict(n = number of code-value attributes, m, s) SHARED between shallow copies.
+    (the random stream of the older kinds is unchanged: every new draw is guarded by items / ext)"""
     out = []
+    ops_pool = (EDIT_OPS if edit else PLAIN_OPS) + (EXT_OPS if ext else [])
     for _ in range(n if n is not None else (150 if tier == 'quick' else 3000)):
-        sim, ops = [], []          # sim[i]: dict(top, cc, n = number of code-value attributes, m, s, kid)
+        sim, ops = [], []
         budget = rng.choice([3, 4, 5, 6, 8, 10, 12, 14]) if edit else rng.choice([2, 3, 4, 6, 8, 10])
+
+        def deep(a):
+            """sim entries of a deep copy of object a (and of its nested item)"""
+            kid = sim[a]['kid']
+            new = [dict(sim[a], f=dict(sim[a]['f']), kid=len(sim) + 1 if kid is not None else None)]
+            if kid is not None:
+                new.append(dict(sim[kid], f=dict(sim[kid]['f']), top=False))
+            return new
         while len(ops) < budget:
-            tops = [i for i, o in enumerate(sim) if o['top']]
-            kind = rng.choice(EDIT_OPS if edit else PLAIN_OPS)
+            tops = [i for i, o in enumerate(sim) if o['top'] or items]
+            kind = rng.choice(ops_pool)
             if kind not in ('init', 'new', 'fc') and not tops:
                 kind = rng.choice(['init', 'new']) if edit else 'new'
             n_before = len(sim)
@@ -359,23 +433,49 @@ def gen_histories(rng, tier, full, edit=False, n=None):
                 v = rng.choice(EDIT_VALUES)
                 attr = _natural_attr(v) if rng.random() < 0.6 else rng.choice(ATTRS)
                 ops.append({'op': 'setcode', 'a': a, 'attr': attr, 'v': v})
-                sim[a]['n'] = 1
+                sim[a]['f']['n'] = 1
                 continue
             if kind == 'setscheme':
                 a = rng.choice(tops)
                 ops.append({'op': 'setscheme', 'a': a, 's': rng.choice(EDIT_SCHEMES)})
-                sim[a]['s'] = True
+                sim[a]['f']['s'] = True
                 continue
             if kind == 'setver':
                 ops.append({'op': 'setver', 'a': rng.choice(tops), 'ver': rng.choice(VERSIONS + ['1.0'])})
                 continue
+            if kind == 'del':
+                # (never through a store that a NESTED item lives on: whether == of two parents whose items are malformed
+                #  concepts raises or answers False depends on the insertion order of pydicom's element dict - not modelled)
+                item_stores = [o['f'] for o in sim if not o['top']]
+                cand = [i for i in tops if not any(sim[i]['f'] is f_ for f_ in item_stores)]
+                if not cand:
+                    continue
+                a, k = rng.choice(cand), rng.randrange(3)
+                ops.append({'op': 'del', 'a': a, 'k': k})
+                if k == 0:
+                    sim[a]['f']['n'] = 0
+                else:
+                    sim[a]['f']['m' if k == 1 else 's'] = False
+                if rng.random() < 0.7:
+                    # the malformed object (or one that shares its store) is used at once
+                    b = rng.choice([i for i in tops if sim[i]['f'] is sim[a]['f']])
+                    ops.append(rng.choice([{'op': 'hash', 'a': b}, {'op': 'hash', 'a': b}, {'op': 'lookup', 'a': b, 'b': rng.choice(tops)},
+                                           {'op': 'lookup', 'a': rng.choice(tops), 'b': b}, {'op': 'eq', 'a': b, 'b': rng.choice(tops)},
+                                           {'op': 'eq', 'a': rng.choice(tops), 'b': b}, {'op': 'fd', 'a': b, 'copy': True}]))
+                    if ops[-1]['op'] == 'fd' and _wf(sim[b]['f']):
+                        sim.extend([dict(e, top=(j == 0), cc=(True if j == 0 else e['cc'])) for j, e in enumerate(deep(b))])
+                continue
+            if kind == 'shallow':
+                a = rng.choice(tops)
+                ops.append({'op': 'shallow', 'a': a, 'how': rng.choice(['copy.copy', 'Dataset.copy'])})
+                sim.append(dict(sim[a], top=True))          # same f (shared store), same kid (shared item)
+                if sim[n_before]['cc'] and rng.random() < 0.45:
+                    ops.append(_use_as_key(rng, sim, n_before))
+                continue
             if kind == 'clone':
                 a = rng.choice(tops)
                 ops.append({'op': 'clone', 'a': a, 'how': rng.choice(['deepcopy', 'pickle'])})
-                kid = sim[a]['kid']
-                sim.append(dict(sim[a], kid=len(sim) + 1 if kid is not None else None))
-                if kid is not None:
-                    sim.append({'top': False})
+                sim.extend([dict(e, top=(j == 0)) for j, e in enumerate(deep(a))])
                 if sim[n_before]['cc'] and rng.random() < 0.45:
                     ops.append(_use_as_key(rng, sim, n_before))
                 continue
@@ -393,47 +493,57 @@ def gen_histories(rng, tier, full, edit=False, n=None):
                 m = sp['m'] if rng.random() < 0.9 else 'M' * 65
                 ops.append({'op': 'init', 'v': sp['v'], 's': sp['s'], 'm': m, 'ver': sp['ver']})
                 if len(m) <= 64:
-                    sim.append({'top': True, 'cc': True, 'n': 1, 'm': True, 's': True, 'kid': None})
+                    sim.append({'top': True, 'cc': True, 'f': {'n': 1, 'm': True, 's': True}, 'kid': None})
             elif kind == 'new':
                 sp = rng.choice(full)
                 pres = rng.choice([(1, 0, 0), (0, 1, 0), (0, 0, 1), (1, 0, 0), (0, 0, 1), (1, 1, 0), (0, 0, 0), (1, 1, 1)])
                 ds = {kw: (sp['v'] if p else None) for kw, p in zip(ATTRS, pres)}
                 has_m, has_s = rng.random() < 0.85, rng.random() < 0.85
                 nested = rng.random() < 0.5
+                nst = {'v': 'inner', 'm': 'inner meaning'} if nested else None
+                if nested and items and rng.random() < 0.8:
+                    nst['s'] = rng.choice(['DCM', 'SRT'])
+                    nst['v'] = rng.choice(['inner', 'T-04000', sp['v']])
                 ops.append({'op': 'new', 'ds': ds, 'm': sp['m'] if has_m else None, 's': sp['s'] if has_s else None,
-                            'ver': sp['ver'], 'nested': {'v': 'inner', 'm': 'inner meaning'} if nested else None})
-                sim.append({'top': True, 'cc': False, 'n': sum(pres), 'm': has_m, 's': has_s,
+                            'ver': sp['ver'], 'nested': nst})
+                sim.append({'top': True, 'cc': False, 'f': {'n': sum(pres), 'm': has_m, 's': has_s},
                             'kid': len(sim) + 1 if nested else None})
                 if nested:
-                    sim.append({'top': False})
+                    sim.append({'top': False, 'cc': False, 'f': {'n': 1, 'm': True, 's': 's' in nst}, 'kid': None})
             elif kind == 'fd':
                 if rng.random() < 0.06:
                     ops.append({'op': 'fd', 'a': None, 'copy': rng.random() < 0.5})
                     continue
                 a, copy = rng.choice(tops), rng.random() < 0.5
+                its = [i for i in tops if not sim[i]['top']]
+                if items and its and rng.random() < 0.45:
+                    a = rng.choice(its)                      # the nested item itself goes through the API
                 ops.append({'op': 'fd', 'a': a, 'copy': copy})
-                if _wf(sim[a]):
+                if _wf(sim[a]['f']):
                     if copy:
-                        kid = sim[a]['kid']
-                        sim.append(dict(sim[a], cc=True, kid=len(sim) + 1 if kid is not None else None))
-                        if kid is not None:
-                            sim.append({'top': False})
+                        sim.extend([dict(e, top=(j == 0), cc=(True if j == 0 else e['cc'])) for j, e in enumerate(deep(a))])
                     else:
                         sim[a]['cc'] = True
             elif kind == 'fc':
                 ccs = [i for i in tops if sim[i]['cc']]
-                if ccs and rng.random() < 0.5:
+                plains = [i for i in tops if not sim[i]['cc']]
+                if items and plains and rng.random() < 0.5:
+                    ops.append({'op': 'fc', 'a': rng.choice(plains), 'plain': True})     # from_code(plain Dataset): refused
+                elif ccs and rng.random() < 0.5:
                     ops.append({'op': 'fc', 'a': rng.choice(ccs)})
                 else:
                     sp = rng.choice(full)
                     ops.append({'op': 'fc', 'c': dict(sp, route='code')})
-                    sim.append({'top': True, 'cc': True, 'n': 1, 'm': True, 's': True, 'kid': None})
+                    sim.append({'top': True, 'cc': True, 'f': {'n': 1, 'm': True, 's': True}, 'kid': None})
             elif kind == 'setm':
                 a = rng.choice(tops)
                 ops.append({'op': 'setm', 'a': a, 'm': rng.choice(['changed', 'Breast', ''])})
-                sim[a]['m'] = True
+                sim[a]['f']['m'] = True
             elif kind == 'setn':
-                ops.append({'op': 'setn', 'a': rng.choice(tops), 'm': rng.choice(['changed', 'inner meaning'])})
+                a = rng.choice(tops)
+                ops.append({'op': 'setn', 'a': a, 'm': rng.choice(['changed', 'inner meaning'])})
+                if sim[a]['kid'] is not None:
+                    sim[sim[a]['kid']]['f']['m'] = True
             else:
                 ops.append({'op': 'eq', 'a': rng.choice(tops), 'b': rng.choice(tops)})
             if edit and len(sim) > n_before and sim[n_before].get('cc') and rng.random() < 0.45:
@@ -642,7 +752,21 @@ def run_impl(c):
         return [ident(st), [catch(lambda: x in st) for x in objs + probes],
                 [next(i for i, o in enumerate(objs) if o is e) for e in d],
                 [catch(lambda: d.get(x)) for x in objs + probes]]
-    if k in ('history', 'history_edit'):
+    if k == 'store_file_vr':
+        r = catch(lambda: CodedConcept(c['v'], c['s'], c['m'], c['ver']))
+        if isinstance(r, Err):
+            return r
+        r2 = catch(lambda: CodedConcept.from_dataset(_file_roundtrip(r, c['ts'])))
+        return r2 if isinstance(r2, Err) else _strs([_esc(x) for x in _observe_concept(r2)])
+    if k == 'from_code_any':
+        arg = _fc_arg(c)
+        r = catch(lambda: CodedConcept.from_code(arg))
+        if isinstance(r, Err):
+            return r
+        if type(r) is not CodedConcept:
+            return ['not a CodedConcept: ' + type(r).__name__, None]
+        return [r is arg, _strs(_observe_concept(r))]
+    if k in ('history', 'history_edit', 'history_item', 'history_ext'):
         objs, results = [], []
         _run_ops(c['ops'], _cands(c['ops']), objs, results)
         return _history_final(objs, results, _cands(c['ops']))
@@ -652,6 +776,38 @@ def run_impl(c):
         _run_ops(c['ops'][c['cut']:], _cands(c['ops']), objs, results)
         return _history_final(objs, results, _cands(c['ops']))
     raise ValueError(k)
+
+
+_ESC = {'\0': '~', '\t': '^', '\n': '|', '\r': '`'}
+
+
+def _esc(x):
+    """control characters as printable stand-ins (the model undoes it: unesc_char / esc_char)"""
+    if not isinstance(x, str):
+        return x
+    assert not any(ch in x for ch in _ESC.values()), x
+    return ''.join(_ESC.get(ch, ch) for ch in x)
+
+
+FC_KW = ATTRS + ['CodeMeaning', 'CodingSchemeDesignator', 'CodingSchemeVersion']
+
+
+def _fc_arg(c):
+    """the argument of a from_code_any case: plain Dataset with the listed elements / None / int / str / tuple of str"""
+    from pydicom import Dataset
+    if c['arg'] == 'plain':
+        d = Dataset()
+        for kw in FC_KW:
+            if c['ds'][kw] is not None:
+                setattr(d, kw, c['ds'][kw])
+        if c['seq']:
+            inner = Dataset()
+            inner.CodeValue = 'inner'
+            d.EquivalentCodeSequence = [inner]
+        return d
+    if c['arg'] in ('none', 'int'):
+        return None if c['arg'] == 'none' else 7
+    return {'str': ''.join(c['l']), 'tuple': tuple(c['l']), 'list': list(c['l'])}[c['arg']]
 
 
 def _cands(ops):
@@ -666,6 +822,10 @@ def _cands(ops):
             if op['s'] is not None:
                 schemes.add(op['s'])
             values.update(v for v in op['ds'].values() if v is not None)
+            if op['nested'] is not None:
+                values.add(op['nested']['v'])
+                if op['nested'].get('s') is not None:
+                    schemes.add(op['nested']['s'])
         elif t == 'fc' and 'c' in op:
             schemes.add(op['c']['s']); values.add(op['c']['v'])
         elif t == 'setcode':
@@ -687,8 +847,8 @@ def _index(objs, o):
         if e is o:
             return i
     objs.append(o)
-    if 'EquivalentCodeSequence' in o:
-        objs.append(o.EquivalentCodeSequence[0])
+    if 'EquivalentCodeSequence' in o and not any(e is o.EquivalentCodeSequence[0] for e in objs):
+        objs.append(o.EquivalentCodeSequence[0])      # (a shallow copy shares the item: already known)
     return _index(objs, o)
 
 
@@ -742,6 +902,14 @@ def _run_ops(ops, cands, objs, results):
         elif t == 'clone':
             src = objs[op['a']]
             r = copy.deepcopy(src) if op['how'] == 'deepcopy' else pickle.loads(pickle.dumps(src))
+        elif t == 'del':
+            r = objs[op['a']]
+            for kw in (ATTRS if op['k'] == 0 else ['CodeMeaning'] if op['k'] == 1 else ['CodingSchemeDesignator']):
+                if kw in r:
+                    delattr(r, kw)
+        elif t == 'shallow':
+            src = objs[op['a']]
+            r = copy.copy(src) if op['how'] == 'copy.copy' else src.copy()
         elif t == 'eq':
             results.append(catch(lambda: objs[op['a']] == objs[op['b']]))
             continue
@@ -832,6 +1000,8 @@ def _plain(attr, sp, op=None):
         inner = Dataset()
         inner.CodeValue = nested['v']
         inner.CodeMeaning = nested['m']
+        if nested.get('s') is not None:
+            inner.CodingSchemeDesignator = nested['s']
         d.EquivalentCodeSequence = [inner]
     return d
 
@@ -901,7 +1071,19 @@ def coq_term(c):
     if k in ('set', 'set_broken'):
         rl = lambda sps: '[' + '; '.join(f'({_route(sp)}, {_code(sp)})' for sp in sps) + ']'
         return f"(run_set {_table(*c['objs'], *c['probes'])} {rl(c['objs'])} {rl(c['probes'])})"
-    if k in ('history', 'history_edit', 'history_xproc'):
+    if k == 'store_file_vr':
+        return (f"(run_store_file_vr {coq_string(_esc(c['v']))} {coq_string(_esc(c['s']))} {coq_string(_esc(c['m']))} "
+                f"{_ostr(_esc(c['ver']))})")
+    if k == 'from_code_any':
+        if c['arg'] == 'plain':
+            d = c['ds']
+            x = (f"(FCPlain (DS {' '.join(_ostr(d[kw]) for kw in FC_KW)} false) {'true' if c['seq'] else 'false'})")
+        elif c['arg'] in ('none', 'int'):
+            x = 'FCNotIterable'
+        else:
+            x = '(FCStrings [' + '; '.join(coq_string(e) for e in c['l']) + '])'
+        return f'(run_from_code_any {x})'
+    if k in ('history', 'history_edit', 'history_xproc', 'history_item', 'history_ext'):
         # (history_xproc: the pickle of the whole population into another interpreter is the identity on the model's heap)
         vs, terms = [], []
         for op in c['ops']:
@@ -924,8 +1106,10 @@ def coq_term(c):
                 ds = lambda cv, lcv, urn, m, s_, ver: (f"(DS {_ostr(cv)} {_ostr(lcv)} {_ostr(urn)} {_ostr(m)} "
                                                         f"{_ostr(s_)} {_ostr(ver)} false)")
                 n = op['nested']
+                if n is not None:
+                    vs.append({'v': n['v']})
                 o = (f"ONewDataset {ds(d['CodeValue'], d['LongCodeValue'], d['URNCodeValue'], op['m'], op['s'], op['ver'])} "
-                     + ('None' if n is None else f"(Some {ds(n['v'], None, None, n['m'], None, None)})"))
+                     + ('None' if n is None else f"(Some {ds(n['v'], None, None, n['m'], n.get('s'), None)})"))
             elif t == 'setm':
                 o = f"OSetMeaning {op['a']}%nat {coq_string(op['m'])}"
             elif t == 'setn':
@@ -945,10 +1129,16 @@ def coq_term(c):
                 o = f"OLookup {op['a']}%nat {op['b']}%nat"
             elif t == 'eq':
                 o = f"OEq {op['a']}%nat {op['b']}%nat"
+            elif t == 'del':
+                terms.append(f"ODelAttr {op['a']}%nat {zlit(op['k'])}")
+                continue
+            elif t == 'shallow':
+                terms.append(f"OShallow {op['a']}%nat")
+                continue
             else:
                 raise ValueError(t)
-            terms.append(o)
-        return f"(run_history {_table(*vs)} [{'; '.join(terms)}])"
+            terms.append(f'Std ({o})' if k == 'history_ext' else o)
+        return f"({'run_history2' if k == 'history_ext' else 'run_history'} {_table(*vs)} [{'; '.join(terms)}])"
     raise ValueError(k)
 
 
@@ -1150,24 +1340,64 @@ def oracle(c, out):
             if isinstance(x, Err) and x.kind not in ('AttributeError', 'TypeError'):
                 return f'unexpected outcome {x} on a concept with deleted attributes'
         return None
-    if k in ('history', 'history_edit', 'history_xproc'):
+    if k == 'store_file_vr':
+        # in a file trailing padding is not significant (PS3.5 6.2: blank, and NUL as written by other implementations; for
+        # UR also trailing white space): the value read back is the value stored without it, and unchanged when it has none
+        if isinstance(out, Err):
+            return f'valid code refused: {out}'
+        attr = _expected_attr(c['v'])
+        ws = ' \t\n\x0b\x0c\r\x1c\x1d\x1e\x1f'
+        rs = lambda x: None if x is None else _esc(x.rstrip('\0 '))
+        v = _esc(c['v'].rstrip(ws)) if attr == 'URNCodeValue' else rs(c['v'])
+        return _check_concept(out, v, rs(c['s']), rs(c['m']), rs(c['ver']), k, attr)
+    if k == 'from_code_any':
+        # from_code accepts exactly: 3 or 4 strings (value, scheme, meaning[, version]) with a meaning of <= 64 characters
+        if c['arg'] in ('str', 'tuple', 'list') and len(c['l']) in (3, 4):
+            l = c['l']
+            if len(l[2]) > 64:
+                return None if out == Err('ValueError') else f'meaning of {len(l[2])} characters accepted: {out}'
+            if isinstance(out, Err):
+                return f'from_code refused the code {l}: {out}'
+            if out[0]:
+                return 'from_code returned its (non-concept) argument'
+            return _check_concept(out[1], l[0], l[1], l[2], l[3] if len(l) == 4 else None, 'from_code', _expected_attr(l[0]))
+        if not isinstance(out, Err):
+            return f'from_code accepted {c}: {out}'
+        if out.kind not in ('TypeError', 'AttributeError'):
+            return f'from_code raised {out}'
+        return None
+    if k in ('history', 'history_edit', 'history_xproc', 'history_item', 'history_ext'):
         results, final, kids, hashes = out
-        # every object of class CodedConcept is exactly one code (the invariant of the API)
+        ext = k == 'history_ext'
+        # every object of class CodedConcept is exactly one code (the invariant of the API; a user who DELETES attributes
+        # afterwards - history_ext - leaves it)
         for i, (cc, cv, lcv, urn, m, s_, ver) in enumerate(final):
-            if cc and (sum(x is not None for x in (cv, lcv, urn)) != 1 or m is None or s_ is None):
+            if not ext and cc and (sum(x is not None for x in (cv, lcv, urn)) != 1 or m is None or s_ is None):
                 return f'object {i} is a CodedConcept but not exactly one code: {final[i]}'
         owners = {}
         for a, kk in enumerate(kids):
-            if kk is not None:
+            if kk is not None and not ext:       # (a shallow copy - history_ext - shares the item by definition)
                 if kk in owners:
                     return f'objects {owners[kk]} and {a} share the nested item {kk} (copy is not deep)'
                 owners[kk] = a
+        if ext:
+            # a shallow copy and its source stay ONE code: same elements at the end whatever was edited through either
+            for op, r in zip(c['ops'], results):
+                if op['op'] == 'shallow':
+                    if isinstance(r, Err) or r == op['a']:
+                        return f'shallow copy of object {op["a"]} gave {r}'
+                    if final[r][1:] != final[op['a']][1:] or kids[r] != kids[op['a']]:
+                        return (f'shallow copy {r} of object {op["a"]} carries other elements at the end: {final[r]} vs '
+                                f'{final[op["a"]]}')
         n = 0
         for op, r in zip(c['ops'], results):
             if op['op'] == 'init':
                 if (len(op['m']) > 64) != (r == Err('ValueError')):
                     return f'CodedConcept(meaning of {len(op["m"])} characters) gave {r}'
-            if op['op'] == 'fc' and 'a' in op and r != op['a']:
+            if op['op'] == 'fc' and op.get('plain'):
+                if not (isinstance(r, Err) and r.kind in ('TypeError', 'AttributeError')):
+                    return f'from_code(plain Dataset {op["a"]}) gave {r}'
+            elif op['op'] == 'fc' and 'a' in op and r != op['a']:
                 return f'from_code(concept {op["a"]}) returned {r}, not the concept itself'
             if op['op'] == 'fd':
                 if op['a'] is None and r != Err('TypeError'):
@@ -1181,14 +1411,14 @@ def oracle(c, out):
             if op['op'] == 'hash':
                 # a plain Dataset is unhashable (pydicom); a concept must hash like the Code of its current scheme + value
                 if isinstance(r, Err):
-                    if r.kind != 'TypeError':
+                    if r.kind != 'TypeError' and not (ext and r.kind == 'AttributeError'):
                         return f'hash(object {op["a"]}) raised {r}'
                 elif r[1] is not True:
                     return (f'operation {n}: hash(object {op["a"]}) is the hash of {r[0]!r}, not the hash of the pydicom Code '
                             f'with the scheme and value the object carries at that moment')
             if op['op'] == 'lookup':
                 if isinstance(r, Err):
-                    if r.kind != 'TypeError':
+                    if r.kind != 'TypeError' and not (ext and r.kind == 'AttributeError'):
                         return f'set / dict keyed by object {op["a"]} raised {r}'
                 else:
                     b_in_a, b_get_a, cb_in_a, b_in_ca, ca_in_a, a_in_ca = r
@@ -1204,7 +1434,11 @@ def oracle(c, out):
             n += 1
         # at the end every concept hashes as scheme designator + value it carries NOW, whatever its past
         for i, ((cc, cv, lcv, urn, m, s_, ver), hk) in enumerate(zip(final, hashes)):
-            if cc:
+            if cc and ext and (s_ is None or (cv, lcv, urn) == (None, None, None)):
+                # malformed (attributes deleted by the user): hash must refuse, not invent a key
+                if hk != Err('AttributeError' if s_ is None else 'TypeError'):
+                    return f'object {i} has no {"scheme" if s_ is None else "code value"} at the end but hash(object) gave {hk}'
+            elif cc:
                 want = s_ + next(x for x in (cv, lcv, urn) if x is not None)
                 if hk != want:
                     return (f'object {i} carries scheme + value {want!r} at the end of the history but hash(object) is '
@@ -1234,6 +1468,17 @@ def nontrivial(c, out):
         return not isinstance(out, Err) and len(out[0]) < len(c['objs'])
     if k == 'history':
         return any(op['op'] == 'fd' and not isinstance(r, Err) for op, r in zip(c['ops'], out[0]))
+    if k == 'store_file_vr':
+        return not isinstance(out, Err) and any(_esc(x) != y for x, y in ((c['v'], out[3]), (c['s'], out[4]), (c['m'], out[5])))
+    if k == 'from_code_any':
+        return c['arg'] == 'plain' or not isinstance(out, Err)
+    if k == 'history_item':
+        # a nested item went through the API, or a plain dataset was refused by from_code
+        return any((op['op'] == 'fc' and op.get('plain')) or
+                   (op['op'] in ('fd', 'hash', 'lookup', 'clone', 'setcode') and op.get('a') is not None and
+                    op['a'] < len(out[2]) and op['a'] in out[2]) for op in c['ops'])
+    if k == 'history_ext':
+        return any(op['op'] in ('shallow', 'del') for op in c['ops'])
     if k in ('history_edit', 'history_xproc'):
         # an object that was used as a key and edited (itself, or a copy of it) afterwards
         seen = False
@@ -1272,7 +1517,7 @@ def shrink(c):
             yield dict(c, ver=None)
         if c['orig_cc']:
             yield dict(c, orig_cc=False)
-    if k in ('history', 'history_edit', 'history_xproc'):
+    if k in ('history', 'history_edit', 'history_xproc', 'history_item', 'history_ext'):
         ops = c['ops']
 
         def with_ops(new_ops):
@@ -1284,7 +1529,7 @@ def shrink(c):
             yield with_ops(ops[:-1])
         # operations that create no object can be dropped without renumbering the others
         for i in range(len(ops) - 1, -1, -1):
-            if len(ops) > 1 and ops[i]['op'] in ('hash', 'lookup', 'eq', 'setm', 'setn', 'setcode', 'setscheme', 'setver'):
+            if len(ops) > 1 and ops[i]['op'] in ('hash', 'lookup', 'eq', 'setm', 'setn', 'setcode', 'setscheme', 'setver', 'del'):
                 yield with_ops(ops[:i] + ops[i + 1:])
         if k == 'history_xproc' and c['cut'] > 1:
             yield dict(c, cut=c['cut'] - 1)
